@@ -24,6 +24,16 @@ def handbuilt(tier, seed):
     else:
         specs = sfsgen.generate(2, 2, 2) + corpus.sample(sfsgen.generate(1, 3, 1, timeout=3000), 60000, seed) \
                 + sfsgen.generate(2, 4, 2, simulate=(20000, 6), seed=seed) + sfsgen.generate(3, 5, 3, simulate=(10000, 7), seed=seed + 1)
+    # deep initial stacks (the stack-cleaning part of greedy only acts on ten or more elements)
+    deep = sfsgen.generate(18, 6, 2, simulate=(100, 8) if tier == "quick" else (700, 9), seed=seed + 2, minsrc=12)
+    specs += corpus.sample(deep, 6000 if tier == "quick" else 80000, seed)
+    # pinned specifications (corpus/sfs/*.json): inputs on which a defect was found
+    import glob, json, os
+    for f in sorted(glob.glob(os.path.join(common.VERIF, "corpus", "sfs", "*.json"))):
+        js = json.load(open(f))
+        js = js if "user_instrs" in js else list(js.values())[0]
+        js["_shape"] = "corpus/sfs/" + os.path.basename(f)
+        specs.append((os.path.basename(f), js))
     cmds = [{"cmd": "greedy", "sfs": {k: v for k, v in js.items() if not k.startswith("_")}} for _, js in specs]
     res = pool.run_matrix([(["-greedy"], cmds)], timeout=20)[0] if cmds else []
     out = []
